@@ -439,6 +439,10 @@ func TestFC(t *testing.T) {
 			for O := 1; O <= 3; O++ {
 				W, Bi := randRef(rng, []int{O}, -2, 2), randRef(rng, []int{O}, -2, 2)
 				x := randRef(rng, []int{B, D}, -2, 2)
+				if D == 2 && O == 2 {
+					// a weight below the library's equality tolerance against a huge input (seed C16-5: a kernel that skips "zero" entries)
+					W.Data[0], x.Data[0] = []float64{1e-250, -5e-241, 1e-240}[B-1], 1e260
+				}
 				guard(r, "fc", func() {
 					fc, err := layers.NewFC(&layers.FCConfig{Inputs: D, Outputs: O, Initializers: map[string]layers.Initializer{"Weight": fixedInit{W}, "Bias": fixedInit{Bi}}})
 					if err != nil {
